@@ -1,4 +1,6 @@
 import BornoModel.Eval
+import BornoModel.Cli
+import BornoModel.Lemmas.FuelMono
 /-! # C13 — execution is deterministic
 
 The model is a function of (platform, source, stdin): there is no other input — no clock unless
@@ -187,5 +189,30 @@ theorem literal_source_order {α : Type} (k : Name) (v : α) (ps : List (Name ×
   unfold effectiveProps
   simp only [List.foldl, upsert]
   exact fold_keeps_head k v ps [] h
+
+open Cli in
+/-- **what the model answers is a function of the program and its input alone — not of the step budget the
+    driver happens to give it**: whenever `run` with budget `f` ends in anything but "out of fuel", every larger
+    budget produces exactly the same stdout, diagnostics, flags, remaining input and event count.
+    (So the budget of the correspondence driver is not a parameter of any verdict: an answer is *the* answer, and
+    "out of fuel" is the only outcome a larger budget can change.) -/
+theorem run_independent_of_fuel (P : Platform) (f f' : Nat) (hf : f ≤ f') (src : List Char) (repl : Bool) (input : List Char)
+    (h : (run P f src repl input).abnormal ≠ some .fuel) : run P f' src repl input = run P f src repl input := by
+  unfold run at h ⊢
+  cases ha : (frontEnd P.lm src).abnormal with
+  | some a => simp only [ha]
+  | none =>
+    simp only [ha] at h ⊢
+    cases hd : (!(frontEnd P.lm src).diags.isEmpty) with
+    | true => simp only [if_true]
+    | false =>
+      simp only [hd, Bool.false_eq_true, if_false] at h ⊢
+      cases hp : (frontEnd P.lm src).prog with
+      | none => simp only
+      | some prog =>
+        simp only [hp] at h ⊢
+        have hne : interpret P f prog repl input ≠ .abn .fuel := by
+          intro he; rw [he] at h; exact h rfl
+        rw [interpret_stable P f f' hf prog repl input hne]
 
 end Borno.Props.C13
